@@ -44,7 +44,7 @@ def rule_no_error_productions(ctx: Ctx, rid="C06.NO-ERROR-PRODUCTIONS"):
                   f"production `{bad[0]}` resynchronises on errors", site=bad[0].site if bad else "", text=str(bad[0]) if bad else "")
     starts = [p for p in g.prods if p.name == g.start]
     ctx.rep.check(len(g.by_name("S'")) == 1, rid, f"{GR}:{g.cls.name}[start]", f"single start production S' -> {g.start}", text="start")
-    ctx.rep.floor("productions", len(g.prods) - 1, 43)
+    ctx.rep.floor("productions", len(g.prods) - 1, 30)
 
 
 def reference_cfg() -> CFG:
